@@ -55,6 +55,8 @@ CONFIGS = {
     "serde-buf": {"features": "fast-tlsh/default,fast-tlsh/serde-buffered,easy,serde", "rustflags": ""},
     "serde-buf-strict": {"features": "fast-tlsh/default,fast-tlsh/serde-buffered,fast-tlsh/strict-parser,easy,serde",
                          "rustflags": ""},
+    # only used when the CPU running the checks has the feature (props.py looks at /proc/cpuinfo)
+    "static-avx512vl": {"features": "fast-tlsh/default,easy", "rustflags": "-C target-feature=+avx512vl"},
     "unsafe-strict": {"features": "fast-tlsh/default,fast-tlsh/unsafe,fast-tlsh/strict-parser,easy,serde",
                       "rustflags": ""},
     # dev profile: debug assertions + overflow checks
